@@ -356,6 +356,11 @@ def c20(tier, seed):
     ])
     mcp = run_mc("Print.tla", "MC_Print.cfg", workers=2, timeout=300, name="MC_Print", coverage=False)
     wd = wd_of("C20")
+    # design level, spec -> impl: every sequence of 5 (quick) target selections / verbosity changes / solves on one real solver
+    from props import structs
+    rp = structs.spec_to_impl(res, "C20", "Print.tla", ["MC_Print_replay.cfg" if tier == "quick" else "MC_Print_replay6.cfg"], "printseq-replay", wd, "printseq",
+                              workers=6, extra_args=["--dir", wd])
+    res.coverage["print_sequences"] = {"states": rp["states"], "behaviours_replayed": rp["behaviours"]}
     for k, fam in enumerate(["mixed", "badscale"]):
         tr, cs = [os.path.join(wd, f"print{k}" + x) for x in (".ndjson", ".cases.ndjson")]
         cnt = (120 if tier == "quick" else 3000) // (k + 1)
